@@ -148,3 +148,16 @@ Example c07_random_mac_values :
   random_mac mac_mem xen_prefix rnd6 = Done [0;22;62; 17;34;51; 171;172] /\
   random_mac mac_mem None rnd6 = Done [17;34;51;68;85;102; 171;172].
 Proof. split; vm_compute; reflexivity. Qed.
+
+(* ---- the translated dump routine on concrete numbers: a beacon with 9 bytes of elements into 45 and into 44 bytes ---- *)
+From Coq Require Import String.
+From LW Require Import Base.CExpr Gen.Sites Spec.CodeSpec.
+Local Open Scope string_scope.
+Local Open Scope Z_scope.
+Example c07_code_dump_beacon_instance :
+  let rho bl := upd (upd (upd (upd (fun _ => 0) "buf" 8192) "buf_len" bl) "beacon->tags.length" 9) "ret:libwifi_get_beacon_length" 45 in
+  observe (exec 10 (fun _ => None) (rho 45) [] body_libwifi_get_beacon_length) = Some (Some 45, []) /\
+  observe (exec 60 (fun _ => None) (rho 45) [] body_libwifi_dump_beacon) =
+    Some (Some 45, [("libwifi_get_beacon_length", [0]); ("memcpy", [8192; 0; 24]); ("memcpy", [8216; 0; 12]); ("memcpy", [8228; 0; 9])]) /\
+  observe (exec 60 (fun _ => None) (rho 44) [] body_libwifi_dump_beacon) = Some (Some (2 ^ 64 - 22), [("libwifi_get_beacon_length", [0])]).
+Proof. repeat split; vm_compute; reflexivity. Qed.
